@@ -16,6 +16,7 @@ RULE = ("generated cases write a parameter file (random group names, a random tr
         "groups and >= 3 pair entries, or a shipped-table pair; distinct = distinct file digests / pairs.")
 EXPLANATION = "the shipped-table part enumerates all pairs of creatable side-chain group types (exhaustive for that sub-claim)"
 RULE = RULE + ' Round 8: after each real run the parameter tables held by the molecule are compared with a freshly read file.'
+RULE = RULE + ' Rounds 9-12: outer cut-offs of ten Angstrom and more in several spellings, zero cut-offs; a contract on the look-up the calculation performs; models whose first one lacks a group type.'
 ASSUMPTIONS = ["ION, BBN and BBC never enter the pair loop through the matrix; LG/ALG/BLG and SER are never created "
                "under the shipped configuration (ligand_typing groups; SER-OG maps to ROH)"]
 TIMEOUT = {"quick": 1200, "thorough": 7200}
